@@ -9,6 +9,9 @@ TUS = ['kernel/multi_aes/aes/aes.cpp', 'kernel/multi_aes/aes/aesmode.cpp', 'kern
        'kernel/cry.cpp', 'valget/base64/base64.cpp', 'valget/getopts.cpp', 'main.cpp']
 
 
+CLI_TUS = ('valget/getopts.cpp', 'main.cpp')   # command-line layer: compiled in only for the C17 obligations (its string tables trip CBMC's object_whole havoc)
+
+
 def run_one(args):
     repo, rel, workdir = args
     r = subprocess.run([sys.executable, os.path.join(HERE, 'extract.py'), repo, rel, workdir],
@@ -61,6 +64,8 @@ def build(repo, workdir, tus=TUS, jobs=14):
                     meta['conflicts'].append('global %s differs between translation units' % k)
                 continue
             seen_g[k] = t
+            if rel in CLI_TUS:
+                t = '#ifndef WV_NO_CLI\n' + t + '\n#endif'
             globs.append((k, t))
         for name, f in d['funcs'].items():
             if name in funcs:
@@ -160,7 +165,10 @@ def build(repo, workdir, tus=TUS, jobs=14):
             out.append('/* R5 dispatcher */\n' + sig + '\n' + body)
             meta['funcs'][name] = {'file': '(generated dispatcher)', 'line': 0, 'sha256': '', 'generated': True, 'sig': sig}
     for name, f in funcs.items():
-        out.append('/* %s:%d %s */\n%s\n%s\n%s' % (f['file'], f['line'], f['sha256'], f['sig'], f['contract'], f['body']))
+        txt = '/* %s:%d %s */\n%s\n%s\n%s' % (f['file'], f['line'], f['sha256'], f['sig'], f['contract'], f['body'])
+        if f['file'] in CLI_TUS:
+            txt = '#ifndef WV_NO_CLI\n' + txt + '\n#endif'
+        out.append(txt)
         meta['funcs'][name] = {'file': f['file'], 'line': f['line'], 'sha256': f['sha256'], 'generated': bool(f.get('generated')), 'sig': f['sig'],
                                'in_place_contract': bool(f['contract'])}
     text = '\n\n'.join(out) + '\n'
